@@ -337,6 +337,12 @@ impl Model {
         for (ci, ch0) in text.chars().enumerate() {
             let ch = self.translate(ch0);
             let w = ch.width().unwrap_or(0) as u32;
+            if w > 2 {
+                // D16: the statement speaks of widths 0, 1 and 2; the width tables give exactly one
+                // code point (U+17D8 KHMER SIGN BEYYAL) the width 3
+                self.dc.mark_all("D16 character of display width 3");
+                continue;
+            }
             let c = self.c();
             if w > 0 && self.s.cursor.x == c {
                 if self.has(DECAWM) {
@@ -351,8 +357,10 @@ impl Model {
                 self.ich(Some(w));
             }
             let (x, y) = (self.s.cursor.x as usize, self.s.cursor.y as usize);
+            // snapshots of the implementation hold cell text after NFC (DESIGN 4): so does the model
+            let chs: String = if ch.is_ascii() { ch.to_string() } else { ch.to_string().nfc().collect() };
             if w == 1 {
-                self.s.grid[y][x] = self.s.cursor.attr.with_data(&ch.to_string());
+                self.s.grid[y][x] = self.s.cursor.attr.with_data(&chs);
             } else if w == 2 {
                 if c == 1 || x + 1 >= c as usize {
                     if self.d6_narrow && ci + 1 == n_chars {
@@ -364,7 +372,7 @@ impl Model {
                         self.dc.mark_all("D6 double-width in the last column");
                     }
                 }
-                self.s.grid[y][x] = self.s.cursor.attr.with_data(&ch.to_string());
+                self.s.grid[y][x] = self.s.cursor.attr.with_data(&chs);
                 if x + 1 < c as usize {
                     self.s.grid[y][x + 1] = self.s.cursor.attr.with_data("");
                 }
